@@ -176,11 +176,18 @@ Qed.
 Definition RangeOk (d : document) (r : range) : Prop :=
   fst r <= snd r /\ snd r <= len_N (d_ns_tree d).
 
+Definition NsIdxOk (d : document) (o : option N) : Prop :=
+  match o with Some i => i < len_N (d_ns_values d) | None => True end.
+
 Definition KindOk (d : document) (k : node_kind) : Prop :=
-  match k with KElement _ _ _ nss => RangeOk d nss | _ => True end.
+  match k with
+  | KElement ns _ ats nss =>
+    RangeOk d nss /\ fst ats <= snd ats /\ snd ats <= len_N (d_attrs d) /\ NsIdxOk d ns
+  | _ => True
+  end.
 
 Definition AttrOk (d : document) (a : attr_data) : Prop :=
-  match ad_ns_idx a with Some i => i < len_N (d_ns_values d) | None => True end.
+  NsIdxOk d (ad_ns_idx a) /\ snd (ad_range a) <> 0.
 
 Record DocOk (d : document) : Prop := {
   dok_tree : Forall (fun i => i < len_N (d_ns_values d)) (d_ns_tree d);
@@ -208,14 +215,22 @@ Qed.
 Lemma KindSim_ok d k k' : KindSim k k' -> KindOk d k -> KindOk d k'.
 Proof. intros [->|[_ H]] Hk; auto. destruct k'; try discriminate. exact I. Qed.
 
-Lemma KindOk_mono d d' k : len_N (d_ns_tree d) <= len_N (d_ns_tree d') -> KindOk d k -> KindOk d' k.
-Proof. intros H. destruct k; cbn; auto. unfold RangeOk. lia. Qed.
+Lemma NsIdxOk_mono d d' o : len_N (d_ns_values d) <= len_N (d_ns_values d') -> NsIdxOk d o -> NsIdxOk d' o.
+Proof. unfold NsIdxOk. destruct o; auto. lia. Qed.
+
+Lemma KindOk_mono d d' k : len_N (d_ns_tree d) <= len_N (d_ns_tree d') ->
+  len_N (d_attrs d) <= len_N (d_attrs d') -> len_N (d_ns_values d) <= len_N (d_ns_values d') ->
+  KindOk d k -> KindOk d' k.
+Proof.
+  intros H1 H2 H3. destruct k; cbn; auto. unfold RangeOk. intros (A & B & C & D).
+  repeat split; try lia. eapply NsIdxOk_mono; eauto.
+Qed.
 
 Lemma RangeOk_mono d d' r : len_N (d_ns_tree d) <= len_N (d_ns_tree d') -> RangeOk d r -> RangeOk d' r.
 Proof. unfold RangeOk. lia. Qed.
 
 Lemma AttrOk_mono d d' a : len_N (d_ns_values d) <= len_N (d_ns_values d') -> AttrOk d a -> AttrOk d' a.
-Proof. unfold AttrOk. destruct (ad_ns_idx a); auto. lia. Qed.
+Proof. unfold AttrOk. intros H [A B]. split; auto. eapply NsIdxOk_mono; eauto. Qed.
 
 Lemma nodes_ok_sim d l l' :
   NodesSim l l' -> Forall (fun nd => KindOk d (nd_kind nd)) l ->
@@ -258,7 +273,7 @@ Proof.
   clear Hvalid.
   intros [T V Nn A] Hi. split; cbn; auto.
   - apply Forall_app; split; auto.
-  - eapply Forall_impl; [|exact Nn]. intros nd. apply KindOk_mono. cbn. rewrite len_N_app. lia.
+  - eapply Forall_impl; [|exact Nn]. intros nd. apply KindOk_mono; cbn; try lia. rewrite len_N_app. lia.
 Qed.
 
 Lemma push_ns_safe name uri d : DocOk d ->
@@ -283,7 +298,7 @@ Proof.
         + eapply Forall_impl; [|exact T]. intros i Hi. cbn in Hi. rewrite len_N_app. lia.
         + constructor; auto. rewrite len_N_app. unfold len_N at 3; cbn. lia.
       - rewrite len_N_app. lia.
-      - eapply Forall_impl; [|exact Nn]. intros nd. apply KindOk_mono. cbn. rewrite len_N_app. lia.
+      - eapply Forall_impl; [|exact Nn]. intros nd. apply KindOk_mono; cbn; try rewrite !len_N_app; lia.
       - eapply Forall_impl; [|exact A]. intros a. apply AttrOk_mono. cbn. rewrite len_N_app. lia. }
     split; [|split; [split; reflexivity|cbn; rewrite len_N_app; reflexivity]].
     split; cbn; auto using NodesSim_refl; rewrite len_N_app; lia.
@@ -404,7 +419,7 @@ Proof. induction n; intros; cbn; auto. Qed.
 (* ---- attributes ---- *)
 
 Lemma attr_expanded_name_safe d ns_idx local :
-  match ns_idx with Some i => i < len_N (d_ns_values d) | None => True end ->
+  NsIdxOk d ns_idx ->
   safe (attr_expanded_name text d ns_idx local) (fun _ => True).
 Proof.
   clear Hvalid. intros H. unfold attr_expanded_name. destruct ns_idx as [i|]; [|exact I].
@@ -416,8 +431,8 @@ Lemma any_same_name_safe d : forall l name, Forall (AttrOk d) l ->
 Proof.
   clear Hvalid.
   induction l as [|a r IH]; intros name H; cbn [any_same_name]; [exact I|].
-  inversion H; subst.
-  eapply safe_bind; [apply attr_expanded_name_safe; auto|]. intros n _. cbv beta.
+  inversion H as [|? ? Ha Hr]; subst.
+  eapply safe_bind; [apply attr_expanded_name_safe; apply Ha|]. intros n _. cbv beta.
   destruct (_ && _); [exact I|auto].
 Qed.
 
@@ -425,14 +440,15 @@ Definition SameNT (d d' : document) : Prop :=
   d_nodes d' = d_nodes d /\ d_ns_tree d' = d_ns_tree d /\ d_ns_values d' = d_ns_values d.
 
 Lemma resolve_attrs_loop_safe nss start : forall l d,
-  DocOk d -> RangeOk d nss ->
+  DocOk d -> RangeOk d nss -> Forall (fun a => snd (ta_range a) <> 0) l ->
   safe (resolve_attrs_loop text nss start l d)
        (fun d' => DocRel d d' /\ SameNT d d' /\ len_N (d_attrs d') = len_N (d_attrs d) + len_N l).
 Proof.
-  induction l as [|a r IH]; intros d Hd Hr; cbn [resolve_attrs_loop].
+  induction l as [|a r IH]; intros d Hd Hr Hl; cbn [resolve_attrs_loop].
   { cbn. split; [apply DocRel_refl; auto|]. split; [repeat split|]. unfold len_N; cbn; lia. }
+  inversion Hl as [|? ? Hla Hlr]; subst.
   cbv zeta.
-  eapply safe_bind with (Q := fun o => match o with Some i => i < len_N (d_ns_values d) | None => True end).
+  eapply safe_bind with (Q := NsIdxOk d).
   { destruct (bytes_eqb _ ns_xml_prefix). { cbn. apply Hd. }
     destruct (slice_bytes text (ta_prefix a)) eqn:E; [exact I|].
     apply get_ns_idx_by_prefix_safe; auto. }
@@ -443,7 +459,9 @@ Proof.
   set (na := {| ad_ns_idx := ns_idx; ad_local := ta_local a; ad_value := ta_value a;
                 ad_range := ta_range a; ad_qname_len := ta_qname_len a; ad_eq_len := ta_eq_len a |}).
   assert (Hd1 : DocOk (set_attrs d (d_attrs d ++ [na]))).
-  { destruct Hd as [T V Nn A]. split; cbn; auto; apply Forall_app; split; auto. }
+  { destruct Hd as [T V Nn A]. split; cbn; auto.
+    - eapply Forall_impl; [|exact Nn]. intros nd. apply KindOk_mono; cbn; try rewrite !len_N_app; lia.
+    - apply Forall_app; split; auto. constructor; auto. split; auto. }
   assert (R1 : DocRel d (set_attrs d (d_attrs d ++ [na]))).
   { split; cbn; auto using NodesSim_refl; lia. }
   eapply safe_mono; [apply IH; auto|].
